@@ -150,6 +150,12 @@ Eval vm_compute in (length cases, length bad, map fst (firstn 3 bad)).
     hb = cfg(months=24, loads={"kind": "balanced", "scale": 20000.0, "seed": 6})
     hb["_hourly_before_write"] = True
     cfgs.append(hb)
+    # a manager that produced (and wrote) the results of another study first
+    ru = cfg("RECTANGLE", months=24, loads={"kind": "cooling", "scale": 26000.0, "seed": 5})
+    ru["_first_configured_with"] = {"loads": {"synthetic": {"kind": "heating", "scale": 9000.0, "seed": 2}}, "simulation": {"num_months": 12}}
+    cfgs.append(ru)
+    # a RowWise design for which one borehole suffices (the search evaluates a stand-in 1X1 field at the origin)
+    cfgs.append(cfg("ROWWISE", months=12, loads={"kind": "balanced", "scale": 400.0, "seed": 1}))
     for r in e2e_runs(cfgs):
         if not r.get("ok"):
             chk.broken.append({"name": "end-to-end run failed", "detail": json.dumps({k: r.get(k) for k in ("exc", "msg")})})
@@ -172,6 +178,9 @@ Eval vm_compute in (length cases, length bad, map fst (firstn 3 bad)).
             brow = [[float(a), float(b)] for a, b in list(csv.reader(f))[1:]]
         if brow != r["coords"]:
             chk.violation("borefield-csv", {"cfg": r["cfg"]}, {"rows": brow[:5], "n": len(brow)}, f"the {r['nbh']} selected coordinates")
+        if r.get("selected_coords") is not None and brow != r["selected_coords"]:
+            chk.violation("borefield-csv", {"cfg": r["cfg"]}, {"rows": brow[:5], "selected_by_the_search": r["selected_coords"][:5]},
+                          "BoreFieldData.csv lists exactly the coordinates the search selected, in order")
         with open(os.path.join(od, "Gfunction.csv")) as f:
             grow = [[float(a) for a in x] for x in list(csv.reader(f))[1:]]
         xs = [g[0] for g in grow]
